@@ -100,25 +100,34 @@ Section AnyNum.
   Qed.
   Lemma set_normal_verts (L L' : Loop K) : loop_set_normal L = Ok L' -> verts L' = verts L.
   Proof. unfold loop_set_normal. destruct (verts L) as [|a [|b [|c l]]] eqn:E; try discriminate. intros H; inversion H; subst. cbn. exact E. Qed.
+  Lemma removelast_length {A} (l : list A) : length (removelast l) = length l - 1.
+  Proof. induction l as [|x [|y l] IH]; cbn [removelast length] in *; try reflexivity. rewrite IH. cbn. lia. Qed.
   Lemma push_cases (L L' : Loop K) (p : V) : loop_push L p = Ok L' ->
-    verts L' = verts L ++ [p] \/ (verts L' = replace_last (verts L) p /\ 2 <= llen L).
+    verts L' = verts L ++ [p] \/ (verts L' = replace_last (verts L) p /\ 2 <= llen L) \/
+    (verts L' = removelast (verts L) /\ 2 <= llen L).
   Proof.
-    unfold loop_push, loop_push_gen. destruct (valid_to_add L p); cbn [rbind]; try discriminate.
+    unfold loop_push, loop_push_gen, loop_push_gen2. cbn [negb andb]. destruct (valid_to_add L p); cbn [rbind]; try discriminate.
     destruct (Nat.leb 2 (llen L)) eqn:E2.
-    - apply Nat.leb_le in E2. destruct (is_collinear _ _ p) as [col| |]; cbn [rbind]; try discriminate.
+    - apply Nat.leb_le in E2. destruct (vcompare _ p).
+      { cbn [rbind]. match goal with |- context [if ?b then loop_set_normal ?x else _] => destruct b end; intros H.
+        + apply set_normal_verts in H. cbn [set_verts verts] in H. right; right; auto.
+        + inversion H; subst. cbn [set_verts verts]. right; right; auto. }
+      destruct (is_collinear _ _ p) as [col| |]; cbn [rbind]; try discriminate.
       match goal with |- context [if ?b then loop_set_normal ?x else _] => destruct b end; intros H.
-      + apply set_normal_verts in H. cbn [set_verts verts] in H. destruct col; [right | left]; auto.
-      + inversion H; subst. cbn [set_verts verts]. destruct col; [right | left]; auto.
+      + apply set_normal_verts in H. cbn [set_verts verts] in H. destruct col; [right; left | left]; auto.
+      + inversion H; subst. cbn [set_verts verts]. destruct col; [right; left | left]; auto.
     - cbn [rbind]. match goal with |- context [if ?b then loop_set_normal ?x else _] => destruct b end; intros H.
       + apply set_normal_verts in H. left. exact H.
       + inversion H; subst. left. reflexivity.
   Qed.
+  (** (since fix df28df6 a push may also SHORTEN the list by one: the popped spike) *)
   Lemma push_len (L L' : Loop K) (p : V) : loop_push L p = Ok L' ->
-    llen L' <= S (llen L) /\ llen L <= llen L' /\ (llen L' = S (llen L) -> verts L' = verts L ++ [p]).
+    llen L' <= S (llen L) /\ llen L - 1 <= llen L' /\ (llen L' = S (llen L) -> verts L' = verts L ++ [p]).
   Proof.
-    intros H. destruct (push_cases _ _ _ H) as [E|[E H2]]; unfold llen in *; rewrite E.
+    intros H. destruct (push_cases _ _ _ H) as [E|[[E H2]|[E H2]]]; unfold llen in *; rewrite E.
     - rewrite app_length. cbn [length]. split; [lia|]. split; [lia|]. reflexivity.
     - rewrite replace_last_length by (intros C; rewrite C in H2; cbn in H2; lia). split; [lia|]. split; [lia|]. intros C; lia.
+    - rewrite removelast_length. split; [lia|]. split; [lia|]. intros C; lia.
   Qed.
 
   Lemma unwrap_ok {A} s (r : res A) (a : A) : unwrap s r = Ok a -> r = Ok a.
